@@ -13,7 +13,7 @@ patch = os.path.join(src, "change%s.diff" % k)
 demo = os.path.join(src, "demo%s_test.go" % k)
 note = os.path.join(src, "change%s.md" % k)
 stored = "/verif/seeded/%s-%s" % (pid, k)
-if not os.path.exists(patch) and os.path.exists(stored):
+if os.path.exists(os.path.join(stored, "patch.diff")):  # a stored seed is re-checked from its stored files, whatever lies in /tmp
     patch = os.path.join(stored, "patch.diff"); demo = os.path.join(stored, "demo_test.go.txt"); note = os.path.join(stored, "NOTE.md")
 RACE = "-race " if pid == "C15" else ""
 env = dict(os.environ, GOFLAGS="-mod=mod", GOPROXY="off", GOSUMDB="off", GOTOOLCHAIN="local")
